@@ -36,6 +36,7 @@ URLS = {
     'patch_primary': 'http://dl.example.invalid/foosub-1.0-patch.tar.gz',
     'patch_fallback': 'http://mirror.example.invalid/foosub-1.0-patch.tar.gz',
 }
+SIB_URL = 'http://sib.example.invalid/archive/foosub-1.0.tar.gz'       # never answers
 DEP_RE = re.compile(r'Message: DEP (\d+) found=(true|false) type=(\S+) version=(\S+)')
 
 
@@ -265,6 +266,12 @@ class Check:
             w['default_library'] = flavour if rng.random() < 0.6 else rng.choice([None, 'static', 'shared', 'both'])
             if w['sub'] is not None:
                 w['sub']['default_library'] = ('shared' if st_ else 'static') if rng.random() < 0.6 else rng.choice([None, 'static', 'shared', 'both'])
+        # (extra stream, added late) a second wrap whose source archive has the *same file name* as foosub's (release archives
+        # called v1.0.tar.gz are common) but another recorded hash: whatever lies in the package cache under that name - put
+        # there beforehand or by foosub's download earlier in the same run - is not its archive and must be refused
+        rx = prng.derive(prng.base_seed(), 'c10-extra', tier, index)
+        if w.get('sub') is not None and w['sub']['kind'] == 'wrap' and w.get('cmd') != 'download' and rx.random() < 0.4:
+            w['sibling'] = True
         return w
 
     # ------------------------------------------------------------------ world on disk
@@ -298,6 +305,8 @@ class Check:
                 kw.append(f"static: {'true' if c['static'] else 'false'}")
             lines.append(f"d{i} = dependency('foo', {', '.join(kw)})\n")
             lines.append(f"message('DEP {i} found=@0@ type=@1@ version=@2@'.format(d{i}.found(), d{i}.type_name(), d{i}.found() ? d{i}.version() : 'n/a'))\n")
+        if w.get('sibling'):
+            lines.append("sib = subproject('sibsub', required: false)\nmessage('SIB found=@0@'.format(sib.found()))\n")
         with open(os.path.join(sd, 'meson.build'), 'w') as f:
             f.write(''.join(lines))
         sub = w.get('sub')
@@ -399,6 +408,12 @@ class Check:
             wl += ['[provide]', 'dependency_names = foo' if wr['provide'] == 'names' else f"foo = {wr['provide']}", '']
         with open(os.path.join(sp, f'{DR.SUBNAME}.wrap'), 'w') as f:
             f.write('\n'.join(wl))
+        if w.get('sibling'):
+            sib_body = make_tar({'sibsub-1.0/meson.build': "project('sibsub', version: '0.1')\n"})
+            info['sib_hash'] = hashlib.sha256(sib_body).hexdigest()
+            with open(os.path.join(sp, 'sibsub.wrap'), 'w') as f:
+                f.write('\n'.join(['[wrap-file]', 'directory = sibsub-1.0', f'source_url = {SIB_URL}', f'source_filename = {SRC_FN}',
+                                   f"source_hash = {info['sib_hash']}", '']))
         return info
 
     # ------------------------------------------------------------------ execution
@@ -503,7 +518,28 @@ class Check:
             if 'Traceback (most recent call last)' in out and not (st.sub_acq is not None and st.sub_acq.stage == 'patch-unpack'):
                 return R.violation('sut-exception', f'run {run_i}: traceback printed: {out[-2000:]}', 'sut-exception:printed', **base)
             # ---- integrity invariants (independent of the policy model)
+            if w.get('sibling'):
+                sib_rq = [rq for rq in v['requests'] if rq['url'] == SIB_URL]
+                if sib_rq:
+                    add(probes, 'sibling-wrap-tried-its-own-url')
+                    if w.get('wrap_mode') == 'nodownload' and not is_download:
+                        return R.violation('fetched-under-nodownload', f'run {run_i}: {len(sib_rq)} request(s) for the second wrap under wrap_mode=nodownload',
+                                           'fetched-under-nodownload', **base)
+                    # the second wrap's own URL never answers; its retries are not part of what the model of foosub predicts
+                    t_sib = sum(s_ for s_ in v['sleeps'][-(len(sib_rq) - 1):]) if len(sib_rq) > 1 else 0.0
+                    v['requests'] = [rq for rq in v['requests'] if rq['url'] != SIB_URL]
+                    v['sim_time'] = max(0.0, v['sim_time'] - t_sib)
+                else:
+                    add(probes, 'sibling-wrap-met-shared-file-name-in-cache')
+                for u in v['unpacks']:
+                    if u.get('wrap') == 'sibsub' and u['sha256'] != info['sib_hash']:
+                        return R.violation('unverified-archive-used', f'run {run_i}: the second wrap records {info["sib_hash"][:16]}... for {os.path.basename(u["path"])} but what lay '
+                                           f'under that name ({u["sha256"][:16]}...) was unpacked for it', 'unverified-archive-used:shared-file-name', **base)
+                if re.search(r'SIB found=true', out):
+                    return R.violation('unverified-archive-used', f'run {run_i}: the second wrap, whose archive nobody serves, was configured', 'unverified-archive-used:shared-file-name:configured', **base)
             for u in v['unpacks']:
+                if u.get('wrap') == 'sibsub':
+                    continue
                 fn = os.path.basename(u['path'])
                 rec = info['hashes'].get(fn)
                 if rec is not None and u['sha256'] != rec:
